@@ -150,6 +150,10 @@ def handleUni (s : St) : ConnRes :=
     if stype = 0 then
       (match handleControlStream s1 with
        | .err .eof s2 => handleStreamError s2 (some (.conn cClosedCriticalStream))
+       | .err (.plain c) s2 =>   -- errors.Is(err, errH3FrameError): a frame error is a connection error
+         handleStreamError s2 (some (if c = cFrameError then .conn cFrameError else .plain c))
+       | .err (.strm c) s2 =>
+         handleStreamError s2 (some (if c = cFrameError then .conn cFrameError else .strm c))
        | o => finish o)
     else if stype = 1 then handleStreamError s1 (some (.conn cStreamCreationError))
     else handleStreamError s1 none
@@ -187,6 +191,30 @@ def requestHandler (H : Huff) (tbl : List (List Nat × List Nat)) (k : Nat) (s :
   | .err e s1 => ([], .err e s1)
   | .panic => ([], .panic)
   | .hang => ([], .hang)
+
+/-- The frame loop of `serverConn.parseHeader` (server.go): unknown frames before the HEADERS frame
+are skipped, then the field section is decoded and the frame ended. The validation of the
+decoded fields is not modelled (the tie only feeds it a valid request section). -/
+def parseHeaderFrames (H : Huff) (tbl : List (List Nat × List Nat)) : Nat → St → Out Unit
+  | 0, _ => .hang
+  | fuel + 1, s =>
+    match readFrameHeader s with
+    | .ok ft s1 =>
+      if ft = 1 then
+        (match (decode H tbl s1).final with
+         | .ok _ s2 => endFrame s2
+         | .err e s2 => .err e s2
+         | .panic => .panic
+         | .hang => .hang)
+      else
+        (match discardUnknownFrame s1 ft with
+         | .ok _ s2 => parseHeaderFrames H tbl fuel s2
+         | .err e s2 => .err e s2
+         | .panic => .panic
+         | .hang => .hang)
+    | .err e s1 => .err e s1
+    | .panic => .panic
+    | .hang => .hang
 
 /-- `genericConn.handleRequestStream` around `requestHandler`. -/
 def handleRequest (H : Huff) (tbl : List (List Nat × List Nat)) (k : Nat) (s : St) : List Nat × ConnRes :=
